@@ -53,4 +53,54 @@ TEXTS = {
                       "correspondence run. Known finding: stack overflow on documents nested tens of thousands of elements deep (child "
                       "process replay on every run). Stack depth, allocator and timing are outside the model.",
     },
+    "C03": {
+        "design_ref": "DESIGN.md §8 C03, §4.2",
+        "technique": "Lean 4 theorems about an executable model of the element tree / path index / reverse reference map and its editing "
+                     "operations; differential run of the model against the library on operation histories with full state dumps; direct "
+                     "property oracle on the library",
+        "level_text": 'Proved for all trees: the primitive edits (insert, remove, modify) keep the parent fields in step with the structure; navigation from the root sees exactly the structural ancestors and ends at the requested node; the invariant is preserved at operation level for text items and comments. The other operations, the iterators and stale handles are covered by the correspondence run (every parent field is in every dump) and by the oracle on the real library.',
+        "level_note": "Trusted: Lean kernel; axioms propext, Classical.choice, Quot.sound; the hand model is tied to the Rust code by the "
+                      "correspondence run only (244 of 300 quick histories are compared to the end, the others up to the first file-set "
+                      "operation / move between models). " + 'Partial: World.wf preservation is a theorem for 3 operations only.',
+    },
+    "C04": {
+        "design_ref": "DESIGN.md §8 C04, §4.2",
+        "technique": "Lean 4 theorems about an executable model of the element tree / path index / reverse reference map and its editing "
+                     "operations; differential run of the model against the library on operation histories with full state dumps; direct "
+                     "property oracle on the library",
+        "level_text": 'Proved for all index contents and byte-string paths: finite-map laws of the path index (lookup after insert/remove, other keys untouched) and exactness of the re-keying test on path boundaries (/pkg1 vs /pkg10). The history-wide invariant `index = identifiable elements of the tree` is checked after every request by the dump comparison and by the oracle on the real library.',
+        "level_note": "Trusted: Lean kernel; axioms propext, Classical.choice, Quot.sound; the hand model is tied to the Rust code by the "
+                      "correspondence run only (244 of 300 quick histories are compared to the end, the others up to the first file-set "
+                      "operation / move between models). " + 'Partial: the invariant over all histories is not yet a theorem. Known findings c04:* are replayed on every run.',
+    },
+    "C05": {
+        "design_ref": "DESIGN.md §8 C05, §4.2",
+        "technique": "Lean 4 theorems about an executable model of the element tree / path index / reverse reference map and its editing "
+                     "operations; differential run of the model against the library on operation histories with full state dumps; direct "
+                     "property oracle on the library",
+        "level_text": "Proved for all map contents: registering a referrer appends exactly it to its path's list and leaves all other lists alone; lookup returns what is stored. The invariant `lists = reference elements with that text` and the report/resolve equivalence are checked after every request by the dump comparison (all keys via hook H1) and by the oracle on the real library.",
+        "level_note": "Trusted: Lean kernel; axioms propext, Classical.choice, Quot.sound; the hand model is tied to the Rust code by the "
+                      "correspondence run only (244 of 300 quick histories are compared to the end, the others up to the first file-set "
+                      "operation / move between models). " + 'Partial: the invariant over all histories is not yet a theorem.',
+    },
+    "C06": {
+        "design_ref": "DESIGN.md §8 C06, §4.2",
+        "technique": "Lean 4 theorems about an executable model of the element tree / path index / reverse reference map and its editing "
+                     "operations; differential run of the model against the library on operation histories with full state dumps; direct "
+                     "property oracle on the library",
+        "level_text": "Proved: the test that decides which references a rename/move rewrites selects exactly the element's own path and real descendants (`old` or `old/...`), never a sibling sharing a textual prefix, and keeps the suffix. That rewritten references resolve to the same element object is checked on every rename/move of the run by the dump comparison and by the oracle on the real library.",
+        "level_note": "Trusted: Lean kernel; axioms propext, Classical.choice, Quot.sound; the hand model is tied to the Rust code by the "
+                      "correspondence run only (244 of 300 quick histories are compared to the end, the others up to the first file-set "
+                      "operation / move between models). " + 'Partial: end-to-end target identity over all histories is not yet a theorem.',
+    },
+    "C11": {
+        "design_ref": "DESIGN.md §8 C11, §4.2",
+        "technique": "Lean 4 theorems about an executable model of the element tree / path index / reverse reference map and its editing "
+                     "operations; differential run of the model against the library on operation histories with full state dumps; direct "
+                     "property oracle on the library",
+        "level_text": 'Proved for all worlds and arguments: an error answer of create, named create, remove, rename, set/remove character data, set attribute (both forms), insert/remove text item and deep copy returns the identical world. set_reference_target and move_element_here mutate before their last fallible step in the code and in the model (no theorem; searched by the oracle). Loads: merge scenario on the real library.',
+        "level_note": "Trusted: Lean kernel; axioms propext, Classical.choice, Quot.sound; the hand model is tied to the Rust code by the "
+                      "correspondence run only (244 of 300 quick histories are compared to the end, the others up to the first file-set "
+                      "operation / move between models). " + 'Partial: frame theorems cover 11 operations; the two late-failure sites are documented, not proved unreachable.',
+    },
 }
